@@ -4,7 +4,8 @@ interactive inputs) run through `Transport.read` / `Transport.write` of the plug
 (pty EIO, broken pipe, reset) at a chosen write of the dialogue.
 
 No source hooks: the plugin's `open()` is replaced on the instance by a stub that attaches the endpoint where the real
-`open()` would have put the pty process / socket / stream pair / library channel."""
+`open()` would have put the pty process / socket / stream pair / library channel (system: the stub first runs the real
+`_build_open_cmd()`, which is where the plugin reads the user's transport_options["open_cmd"])."""
 import errno
 
 from .simdevice import Chunker, Starved, driver_class
@@ -138,6 +139,12 @@ def make_real_driver(kind, tname, device, policy=("whole",), fault=None, **kw):
     pipe = (Pipe if stack == "sync" else APipe)(device, policy, fault)
     if stack == "sync":
         def _open():
+            if tname == "system":
+                # what the real open() does before it spawns the process: the ssh command line is built from the
+                # connection arguments and the user's transport_options["open_cmd"] (and logged)
+                if not hasattr(t, "_build_open_cmd"):
+                    raise ValueError("c12_rt: SystemTransport builds its command line differently (no _build_open_cmd)")
+                t._build_open_cmd()
             attach(t, tname, pipe)
     else:
         async def _open():
